@@ -6,6 +6,7 @@ import random
 from typing import Any, Iterable
 
 from .. import gen, impl, sched, spantree
+from ..build import Env
 from ..runprop import RunProp
 
 
@@ -13,11 +14,16 @@ class QuotaCache:
     """A cache backend that refuses entries once its budget is used up: `set` RAISES (a full disk, a value whose pickling fails, a remote
     store that is down)."""
 
-    def __init__(self, budget: int) -> None:
+    def __init__(self, budget: int, get_budget: int | None = None) -> None:
         self.budget = budget
+        self.get_budget = get_budget        # lookups answered before `get` starts RAISING (a remote store that went away)
         self.data: dict[str, Any] = {}
 
     def get(self, key: str) -> tuple[bool, Any]:
+        if self.get_budget is not None:
+            if self.get_budget <= 0:
+                raise ConnectionError("cache backend unreachable")
+            self.get_budget -= 1
         return (True, self.data[key]) if key in self.data else (False, None)
 
     def set(self, key: str, value: Any) -> None:
@@ -41,6 +47,32 @@ class C12(RunProp):
     def cases(self, rng: random.Random, tier: str) -> Iterable[dict]:
         gens = [lambda: gen.gen_dag_program(rng, max_nodes=7, depth=rng.choice([0, 1, 2])), lambda: gen.gen_gated_cfg(rng),
                 lambda: gen.gen_loop_bounded(rng), lambda: gen.gen_failing_dag(rng), lambda: gen.gen_map_node(rng)]
+        # whatever the seed: user code that re-seeds the GLOBAL random generator inside every node body (the "reproducible sampling" idiom):
+        # items of a map and iterations of a loop then start from the same generator state — span ids must still be unique
+        for mk in (lambda: gen.gen_map_node(rng, force="product-order"), lambda: gen.gen_loop_bounded(rng), lambda: gen.gen_dag_program(rng, max_nodes=6, depth=1)):
+            c = mk()
+            for runner in ("sync", "async"):
+                yield {"kind": "run", "program": c["program"], "values": c["values"], "cfg": c.get("cfg", {}), "runner": runner, "seed": rng.randint(0, 10**6),
+                       "yielding": False, "reseed": rng.randint(0, 99)}
+        # whatever the seed: REJECTED calls — an option value the call refuses (unknown on_missing policy, a selected output the graph does not
+        # have, a concurrency limit without a single slot): nothing is delivered, nothing is shut down, no node runs; run and map alike
+        for bad in ({"onMissing": "bogus"}, {"select": ["no_such_output"]}, {"k": 0}):
+            c = gen.gen_dag_program(rng, max_nodes=4, depth=0, allow_fed_default=False, allow_emit=False)
+            m = gen.gen_map_node(rng)
+            a_node = next(nd for nd in m["program"][0]["nodes"] if nd["name"] == "a")
+            n = rng.randint(2, 3)
+            mvals = [[p[0], 1] if p[0] == "c" else [p[0], {"l": [rng.randint(0, 4) for _ in range(n)]}] for p in a_node["params"]]
+            mvals = [["x", {"l": [rng.randint(0, 4) for _ in range(n)]}]] + [v for v in mvals if v[0] not in ("x", "px")]
+            for runner in ("sync", "async"):
+                if "k" in bad and runner == "sync":
+                    continue
+                cfg = {k: v for k, v in bad.items() if k != "k"}
+                yield {"kind": "run", "program": c["program"], "values": c["values"], "cfg": cfg, "runner": runner, "seed": rng.randint(0, 10**6), "yielding": False,
+                       "rejected": True, "k": bad.get("k")}
+                yield {"kind": "map", "program": [m["program"][0]], "values": mvals, "mapOver": [v[0] for v in mvals if isinstance(v[1], dict)], "mode": "zip",
+                       "mapErr": rng.choice(["raise", "continue"]), "cfg": cfg, "runner": runner, "seed": rng.randint(0, 10**6), "yielding": False, "k": bad.get("k"),
+                       "rejected": True}
+        forced_bad = 3      # whatever the seed: cacheable nodes on a backend whose LOOKUP raises after a few answers
         while True:
             c = rng.choice(gens)()
             top = c["program"][-1]["nodes"]
@@ -50,7 +82,9 @@ class C12(RunProp):
                 if outs:
                     c.setdefault("cfg", {})
                     c["cfg"] = dict(c["cfg"], select=rng.sample(outs, rng.randint(1, len(outs))), onMissing="error")
-            bad_cache = rng.randint(0, 2) if rng.random() < 0.15 else None
+            bad_cache = rng.randint(0, 2) if (rng.random() < 0.15 or forced_bad) else None
+            bad_get = rng.randint(0, 2) if bad_cache is not None and (rng.random() < 0.5 or forced_bad) else None
+            forced_bad = max(0, forced_bad - 1)
             for runner in ("sync", "async"):
                 case = {"kind": "run", "program": c["program"], "values": c["values"], "cfg": c.get("cfg", {}), "runner": runner, "seed": rng.randint(0, 10**6),
                         "yielding": (rng.choice([False, True, True, "syncmethods"]) if runner == "async" else False)}
@@ -62,7 +96,7 @@ class C12(RunProp):
                         for n in g["nodes"]:
                             if n["kind"] == "fn":
                                 n["cache"] = True
-                    case.update(program=prog, badCache=bad_cache)
+                    case.update(program=prog, badCache=bad_cache if bad_get is None else 99, badGet=bad_get)
                 yield case
             if rng.random() < 0.25:
                 m = gen.gen_map_node(rng)
@@ -88,13 +122,15 @@ class C12(RunProp):
 
     def impl(self, case: dict) -> Any:
         ctl = sched.Controller("random", case["seed"]) if case["runner"] == "async" else None
+        env = Env()
+        env.reseed = case.get("reseed")
         if case["kind"] == "map":
             o = impl.map_case(case["program"], case["values"], case["mapOver"], case["mode"], case["mapErr"], case["cfg"], case["runner"], ctl=ctl, record_events=True,
-                              yielding_recorder=case.get("yielding"), max_concurrency=case.get("k"))
+                              yielding_recorder=case.get("yielding"), max_concurrency=case.get("k"), env=env)
             o["status"] = "build-error" if o.get("status") == "build-error" else ("failed" if o["raised"] is not None else "completed")
             return o
-        return impl.run_case(case["program"], None, case["values"], case["cfg"], case["runner"], record_events=True, ctl=ctl,
-                             yielding_recorder=case.get("yielding"), cache=QuotaCache(case["badCache"]) if case.get("badCache") is not None else None)
+        return impl.run_case(case["program"], None, case["values"], case["cfg"], case["runner"], record_events=True, ctl=ctl, env=env, max_concurrency=case.get("k"),
+                             yielding_recorder=case.get("yielding"), cache=QuotaCache(case["badCache"], case.get("badGet")) if case.get("badCache") is not None else None)
 
     def request(self, case: dict) -> dict:
         if case["kind"] == "map":
@@ -103,6 +139,8 @@ class C12(RunProp):
         return super().request(case)
 
     def model(self, case: dict, driver: Any) -> Any:
+        if case.get("rejected"):
+            return None
         r = driver.ask(self.request(case))
         if case["kind"] == "map":
             return {"status": "failed" if r["raised"] is not None else "completed", "raised": r["raised"],
@@ -110,6 +148,8 @@ class C12(RunProp):
         return impl.model_obs(r)
 
     def compare(self, case: dict, i: Any, m: Any) -> str | None:
+        if case.get("rejected"):
+            return None          # option validation is outside the run model: the oracle judges
         if case.get("badCache") is not None:
             return None          # a failing cache backend is outside the run model: the span-tree oracle judges these cases
         if i["status"] != m["status"]:
@@ -128,6 +168,14 @@ class C12(RunProp):
         if obs["status"] == "build-error":
             return f"valid program rejected at construction: {obs.get('detail')}"
         if obs["status"] == "paused":
+            return None
+        if case.get("rejected"):
+            raised = obs.get("raised") if case["kind"] == "map" else (obs.get("error") if obs.get("raised") else None)
+            if raised in (None, False) or str(raised).startswith("other:Deadlock"):
+                return None      # accepted after all (or never finished): not a rejected call, nothing for this clause to say
+            if obs["calls"] or obs["events"] or obs.get("shutdowns"):
+                return (f"rejected call ({raised}) ran {len(obs['calls'])} node functions and delivered {len(obs['events'])} events / "
+                        f"{obs.get('shutdowns')} shutdowns")
             return None
         if case["kind"] == "map" and not obs["events"]:
             # zero combinations: nothing delivered (finding C12-F1 covers the missing shutdown)
